@@ -56,7 +56,7 @@ def standardise(kw):
     return "".join(out)
 
 
-def rule_a(ctx, wfns, hfns, kwfn):
+def rule_a(ctx, wfns, hfns, kwfn, rule="C10.a-header-keys-agree", writers=("write_basic_interfile_image_header", "write_interfile_")):
     # tie the mirror to the source: the white-space set literal and the tolower call
     ok_mirror = False
     if kwfn:
@@ -64,7 +64,7 @@ def rule_a(ctx, wfns, hfns, kwfn):
         lower = any(c.is_call() and (c.callee or "").split("::")[-1] == "tolower" for c in kwfn[0].walk())
         chars = sorted(m.get("v") for m in kwfn[0].walk() if m.k == "CharacterLiteral")
         ok_mirror = " \t_!" in lits and lower and chars.count(ord("_")) >= 1 and chars.count(ord("!")) >= 1
-    ctx.ob("C10.a-header-keys-agree", "stir::standardise_interfile_keyword", "mirror-matches-source", ok_mirror, kwfn[0].where() if kwfn else "", "normalisation = trim/collapse {space,tab,_,!} and tolower, as mirrored by the checker" if ok_mirror else "standardise_interfile_keyword no longer matches the checker's mirror")
+    ctx.ob(rule, "stir::standardise_interfile_keyword", "mirror-matches-source", ok_mirror, kwfn[0].where() if kwfn else "", "normalisation = trim/collapse {space,tab,_,!} and tolower, as mirrored by the checker" if ok_mirror else "standardise_interfile_keyword no longer matches the checker's mirror")
     if not ok_mirror:
         return
     # registered keys
@@ -83,11 +83,11 @@ def rule_a(ctx, wfns, hfns, kwfn):
                             ignored.add(k)
                         else:
                             vect = short == "add_vectorised_key" or any(a.strip().k == "DeclRefExpr" and "vector<" in a.strip().type and "vector<std::vector" not in a.strip().type and short == "add_vectorised_key" for a in args)
-                            reg[k] = reg.get(k, False) or vect
+                            reg.setdefault(k, set()).add(bool(vect))
                         if short == "add_alias_key" and len(args) > 1:
                             l2 = [m.get("v") for m in args[1].walk() if m.k == "StringLiteral"]
                             if l2:
-                                reg.setdefault(standardise(l2[0]), False)
+                                reg.setdefault(standardise(l2[0]), set()).add(False)
     ctx.stats["reader_keys"] = len(reg)
     if len(reg) < 30:
         ctx.fail_broken("only %d keys registered by the Interfile header classes were recognised" % len(reg))
@@ -96,7 +96,7 @@ def rule_a(ctx, wfns, hfns, kwfn):
     n = 0
     seen = set()
     for f in wfns:
-        if not (f.short.startswith("write_basic_interfile_image_header") or f.short.startswith("write_interfile_")):
+        if not f.short.startswith(tuple(writers)):
             continue
         # the header proper is written to the first stream declared in the function; later streams (the Analyze-style
         # .ahv copy) are not read back by STIR
@@ -137,13 +137,14 @@ def rule_a(ctx, wfns, hfns, kwfn):
                 if k in ignored:
                     ok, det = True, "explicitly ignored by the reader"
                 elif k in reg:
-                    ok = reg[k] == vect or (not vect and not reg[k])
-                    det = "registered by the reader (%s)" % ("vectorised" if reg[k] else "scalar")
+                    modes = reg[k] or {False}
+                    ok = bool(vect) in modes
+                    det = "registered by the reader (%s)" % "/".join("vectorised" if x else "scalar" for x in sorted(modes))
                     if not ok:
-                        det = "written %s but registered %s" % ("vectorised" if vect else "scalar", "vectorised" if reg[k] else "scalar")
+                        det = "written %s but registered %s" % ("vectorised" if vect else "scalar", "/".join("vectorised" if x else "scalar" for x in sorted(modes)))
                 else:
                     ok, det = False, "the writer emits this key but no Interfile header class registers or ignores it: it is lost (or rejected) on reading"
-                ctx.ob("C10.a-header-keys-agree", f.qn, "key:" + k + ("[]" if vect else ""), ok, "%s:%d" % (f.file, m.line), det)
+                ctx.ob(rule, f.qn, "key:" + k + ("[]" if vect else ""), ok, "%s:%d" % (f.file, m.line), det)
                 n += 1
     return n
 
